@@ -209,3 +209,27 @@ pub fn diff_msg(what: &str, got: &[u8], want: &[u8]) -> String {
         hex(&want[d.min(want.len())..want.len().min(d + 16)])
     )
 }
+
+/// The loopback address this process tree uses for every socket it opens. Each
+/// top-level harness process takes its own address out of 127.0.0.0/8 (derived from
+/// its pid, handed to its child processes through VERIF_LO), so that concurrently
+/// running checks do not compete for one address's ephemeral ports (thousands of
+/// short connections per check leave that many TIME_WAIT entries behind).
+pub fn lo() -> &'static str {
+    static LO: std::sync::OnceLock<String> = std::sync::OnceLock::new();
+    LO.get_or_init(|| match std::env::var("VERIF_LO") {
+        Ok(v) if v.starts_with("127.") => v,
+        _ => {
+            let pid = std::process::id();
+            let v = format!("127.{}.{}.1", 1 + (pid / 250) % 250, pid % 250);
+            // SAFETY: called from main before any thread is started (see main.rs).
+            unsafe { std::env::set_var("VERIF_LO", &v) };
+            v
+        }
+    })
+}
+
+/// `lo()` with port 0 (bind to any free port).
+pub fn lo0() -> String {
+    format!("{}:0", lo())
+}
